@@ -142,6 +142,18 @@ class Checker(C.BaseChecker):
             out.append(self.v("retry_normalizes", f"retry after fit #{k} still normalises the weights", **flags))
         if len(fits) != ex.spec["n_fits_expected"] + 1:
             out.append(self.v("fit_count", f"faulted run made {len(fits)} fits, expected {ex.spec['n_fits_expected']} + 1 retry", **flags))
+        else:
+            # every other fit of the run is made exactly as in the fault-free run (the failure must not leave state behind)
+            bfits = self.base.extra["fits"]
+            for i, bc in enumerate(bfits):
+                fc = fits[i if i <= k else i + 1]
+                eb0, _ = effective(bc)
+                ef0, _ = effective(fc)
+                diff = [n for n in ("taus", "weights", "lambda_", "fit_intercept", "normalize_weights") if not same(eb0[n], ef0[n])]
+                if diff or not (np.array_equal(bc["x"], fc["x"]) and np.array_equal(bc["y"], fc["y"])):
+                    out.append(self.v("later_fit_changed", f"after the failure at fit #{k}, fit #{i} is made with different arguments than in the fault-free run: {diff or ['X/y']} "
+                                                            f"(e.g. {diff[0]}: {ef0[diff[0]]!r} vs {eb0[diff[0]]!r})" if diff else f"fit #{i} got different X/y", later=bool(i > k), **flags))
+                    break
         # (iii) same tables as the reference run (fit k done directly without normalisation)
         ref = self.ref.get(k)
         if ref is None or not ref.ok:
